@@ -249,6 +249,17 @@ func runReport(prop string, t *simrt.Tape, keep bool) simrt.Outcome {
 		r.guard(prop, "Metrics.Add/Close", func() {
 			for i := 0; i <= n; i++ {
 				if closes[i] {
+					if r.repHDR && t.Prob(1, 3) {
+						// the live summary read without closing first (Quantile and the HDR reporter work on the
+						// estimator directly)
+						sub := make([]int64, 0, i)
+						for _, k := range order[:i] {
+							sub = append(sub, int64(rs[k].Latency))
+						}
+						sort.Slice(sub, func(a, b int) bool { return sub[a] < sub[b] })
+						render(r, sub, "tick-unclosed", r.shape)
+						r.stats["fault.report-before-close"]++
+					}
 					m.Close()
 					ticks++
 					r.stats["fault.tick-close"]++
